@@ -115,7 +115,16 @@ impl<H> HandlerVec<H> {
         mut cb: impl FnMut(H) -> HandlerResult,
     ) -> HandlerResult {
         // already-handled end tag handlers may be first, and they must not be removed
-        if let Some(first) = self.items.iter().position(|item| item.user_count > 0) {
+        // NOTE: handlers are pushed in document order and activated for the innermost open
+        // elements only, so the active ones form the tail of the vector. Look for the start of
+        // that tail from the back: walking from the front visits the handler of every element
+        // that is still open, which makes closing deeply nested elements quadratic.
+        let first = self
+            .items
+            .iter()
+            .rposition(|item| item.user_count == 0)
+            .map_or(0, |last_inactive| last_inactive + 1);
+        if first < self.items.len() {
             // Must drop everything after, as remove() would change indexes anyway, breaking locators.
             // rev() is for backwards-compat with previous implementation.
             for item in self.items.drain(first..).rev() {
